@@ -74,7 +74,7 @@ theorem C15_marker_always {α : Type} [DecidableEq α] (cx : Ctx α) (T : Nat) (
 /-- an empty definitions list produces no output: the editor is returned unchanged -/
 theorem C15_empty {α : Type} [DecidableEq α] (cx : Ctx α) (ed : Editor α) (p w : Int) (o : Options α) :
     ed.insertDefTableOpts cx p [] w o = .ok ed := by
-  simp [Editor.insertDefTableOpts, List.foldlM]
+  simp [Editor.insertDefTableOpts, Editor.insertDefTableOptsCore, List.foldlM]
   rfl
 
 /-- total on arbitrary code-point input -/
